@@ -460,7 +460,10 @@ def _run_profile(case):
     pts, amb = _compare_points(par, inp, last_mass, None, last_sgr, vio, f'{ENTRY[k]} last evaluation')
     if amb:
         return {'outcome': f'{k}:ambiguous-branch', 'nontrivial': False, 'violations': []}
-    burn = ref.step_burn([q['fpm'] for q in pts], lengths)
+    # fuel per metre as the entry point itself evaluated it last (verified point by point above),
+    # so that the integration clause is judged separately from the fuel-flow clause
+    fpm = [0.0 if x < 1.0 else 1.0 / x for x in last_sgr]
+    burn = ref.step_burn(fpm, lengths)
 
     # defect signatures (attribution only; the clauses below decide)
     stale = False
@@ -469,7 +472,7 @@ def _run_profile(case):
         stale = all(_close(ret[i], tail[i], scale) for i in range(1, n))
     backward = False
     if k == 'cf' and isinstance(inp['segment_distance'], list) and lengths != lengths[::-1]:
-        rb = ref.step_burn([q['fpm'] for q in pts], lengths[::-1])
+        rb = ref.step_burn(fpm, lengths[::-1])
         backward = all(_close(ret[i] - ret[i + 1], rb[i], scale) for i in range(n - 1))
 
     # trapezoid clause on the returned profile
